@@ -1,5 +1,6 @@
 import LiquidVerif.Lemmas.Printer
 import LiquidVerif.Lemmas.PathRT
+import LiquidVerif.Lemmas.ExprRT
 /-!
 # C04 — serialising a template back to source preserves its meaning
 
@@ -178,5 +179,88 @@ theorem keyword_literal_print_counterexample :
 theorem empty_literal_text_counterexample :
     strBool { e := .cmp .eq (.atom 0) (.atom 1), atoms := [.path (.cons (.name "x") .nil), .empty] } = "x == " := by
   decide
+
+/-! ### Deepening round: primitives and loop expressions at the level of the expression lexer's tokens -/
+section Deepening
+open LiquidVerif.ExprParse
+
+/-- **Primitives (literals, ranges of any nesting, paths)**: `parse_primitive` applied to the tokens of
+`str(p)` followed by any `rest` that does not continue a path returns exactly `(p, rest)` — for every
+primitive except the keyword literals `nil`/`empty`/`blank` (known findings, see
+`keyword_literal_print_counterexample`). -/
+theorem prim_print_parse (p : Prim) (h : PrimOK p) (rest : List XTok) (hs : XStop rest) :
+    prim (tokPrim p ++ rest) = some (p, rest) := prim_rt p h rest hs
+
+/-- the three keyword literals are exactly why `prim_print_parse` carries `PrimOK`: they print no token -/
+theorem prim_print_parse_counterexample : ¬ (∀ p : Prim, prim (tokPrim p) = some (p, [])) := by
+  intro h
+  have := h .empty
+  simp [tokPrim, prim, primS] at this
+
+/-- hypotheses of `loop_expr_print_parse`: the loop variable is a word, the operands are `PrimOK` -/
+structure LoopOK (l : LoopX) : Prop where
+  ident : isProperty l.ident = true
+  it : PrimOK l.iterable
+  limit : OptOK l.limit
+  offset : OptOK l.offset
+  cols : OptOK l.cols
+
+/-- **for/else with limit/offset/reversed, tablerow (cols)**: `LoopExpression.parse` applied to the tokens of
+`LoopExpression.__str__` returns the same loop expression, for every combination of options. -/
+theorem loop_expr_print_parse (l : LoopX) (h : LoopOK l) : loopParse (tokLoop l) = some l := by
+  have e : tokLoop l = xSegs true (.cons (.name l.ident) .nil) ++ (.kw "in" :: (tokPrim l.iterable ++ tokOpts l)) := by
+    simp [tokLoop, tokOpts, xSegs, xSeg, h.ident]
+  have hk := kwhead_opts l
+  have h1 := prim_path (.name l.ident) .nil (.kw "in" :: (tokPrim l.iterable ++ tokOpts l))
+    (by simp [Segs.wf, Seg.wf]) (xstop_kw _ _) (by intro i; simp)
+  have h2 := prim_rt l.iterable h.it (tokOpts l) hk.xstop
+  have h3 := opts_rt l h.limit h.offset h.cols
+  have hc : skipComma (tokOpts l) = tokOpts l := by
+    rcases hk with h0 | ⟨k, r, h0⟩ <;> rw [h0] <;> rfl
+  unfold loopParse
+  rw [e, h1]
+  simp only [identOf, h2]
+  rw [hc, h3]
+
+/-- non-vacuity: `item in (1..user.n) limit:2 offset:'continue' cols:[k] reversed` -/
+def exLoop : LoopX :=
+  { ident := "item"
+    iterable := .range (.int 1) (.path (.cons (.name "user") (.cons (.name "n") .nil)))
+    limit := some (.int 2)
+    offset := some (.str "continue")
+    cols := some (.path (.cons (.sub (.cons (.name "k") .nil)) .nil))
+    reversed := true }
+example : LoopOK exLoop :=
+  ⟨by decide, by simp [exLoop, PrimOK, Segs.wf, Seg.wf], by simp [exLoop, OptOK, PrimOK],
+   by simp [exLoop, OptOK, PrimOK], by simp [exLoop, OptOK, PrimOK, Segs.wf, Seg.wf]⟩
+
+/-- **Tie to the expression lexer (C20's `Model/ExprLex.lean`)**: on the *text* of a printed string
+literal, one step of the lexer's alternation `_RE` yields a STRING match whose value group is the
+original value and whose remaining input is `rest` — from characters, not from tokens. -/
+theorem lex_string_literal (v rest : List Char) (h : ¬ ('\'' ∈ v ∧ '"' ∈ v)) :
+    ∃ m, ExprLex.string? (quoteStr v ++ rest) = some m ∧ m.rule = .string ∧ m.grp = v ∧ m.rest = rest := by
+  have hq : quoteOf v ∉ v := by
+    unfold quoteOf
+    by_cases h1 : '\'' ∈ v
+    · simp only [h1, if_true]; exact fun h2 => h ⟨h1, h2⟩
+    · simp [h1]
+  have hq2 : quoteOf v = '"' ∨ quoteOf v = '\'' := by
+    unfold quoteOf; split <;> simp
+  have hf : ∀ (w : List Char), quoteOf v ∉ w → ExprLex.findQuote (quoteOf v) (w ++ quoteOf v :: rest) = some (w, rest) := by
+    intro w hw
+    induction w with
+    | nil => simp [ExprLex.findQuote]
+    | cons c cs ih =>
+      have hc : c ≠ quoteOf v := fun h' => hw (by simp [h'])
+      have hcs : quoteOf v ∉ cs := fun h' => hw (by simp [h'])
+      simp [ExprLex.findQuote, hc, ih hcs]
+  have e : quoteStr v ++ rest = quoteOf v :: (v ++ quoteOf v :: rest) := by simp [quoteStr]
+  refine ⟨{ rule := .string, raw := quoteOf v :: (v ++ [quoteOf v]), gOff := 1, grp := v, rest := rest }, ?_, rfl, rfl, rfl⟩
+  rw [e, ExprLex.string?]
+  have hb : (quoteOf v == '"' || quoteOf v == '\'') = true := by
+    rcases hq2 with h2 | h2 <;> simp [h2]
+  simp only [hb, if_true, hf v hq]
+
+end Deepening
 
 end LiquidVerif.C04
